@@ -6,8 +6,8 @@ seeds=${@:-$(ls seeded)}
 for sd in $seeds; do
   prop=$(python3 -c "import json;print(json.load(open('seeded/$sd/meta.json'))['property'])")
   also=$(python3 -c "import json;print(' '.join(json.load(open('seeded/$sd/meta.json')).get('also_checked_by',[])))")
-  if ! git -C /repo apply --check seeded/$sd/patch.diff 2>/dev/null; then echo "$sd: PATCH DOES NOT APPLY"; continue; fi
-  git -C /repo apply seeded/$sd/patch.diff
+  if ! git -C /repo apply --check /verif/seeded/$sd/patch.diff 2>/dev/null; then echo "$sd: PATCH DOES NOT APPLY"; continue; fi
+  git -C /repo apply /verif/seeded/$sd/patch.diff
   res=""
   for p in $prop $also; do
     [ -f evidence/$p.json ] && cp evidence/$p.json /tmp/ev_$p.bak
